@@ -40,7 +40,7 @@ def configs(tier, prop="C06"):
         d.update(kw)
         out.append(d)
     # A: two links, everything symbolic (ends, order, start, direction, unknown handling, universe, filters)
-    two = [["DE", "UE"], ["DE", "TE"]] if tier == "quick" else [["DE", "UE"], ["DE", "TE"], ["UE", "SD"], ["DE", "DE"], ["TE", "SU"]]
+    two = [["DE", "UE"], ["DE", "TE"]] if tier == "quick" else [["DE", "UE"], ["DE", "TE"], ["UE", "SD"], ["TE", "SU"]]
     for cs in two:
         for uni in ("none", "sym"):
             for filt in ("none", "via", "result"):
@@ -55,9 +55,9 @@ def configs(tier, prop="C06"):
         cfg(["DE", "DE", "DE"], 3, "none", "none", symbreak=True)
         cfg(["DE", "DE", "DE"], 3, "sym", "none", symbreak=True, dir=0, unk=2)
         cfg(["DE", "DE", "DE"], 3, "none", "via", symbreak=True, dir=0, unk=2)
-        cfg(["DE", "UE", "TE"], 3, "none", "none", symbreak=True)
         cfg(["UE", "UE", "UE"], 3, "none", "none", symbreak=True, dir=0, unk=2)
-        cfg(["DE", "DE", "DE", "DE"], 4, "none", "none", symbreak=True, dir=0, unk=2)
+        cfg(["DE", "DE", "DE"], 4, "none", "none", symbreak=True, dir=0, unk=2)
+        cfg(["DE", "DE", "DE"], 4, "sym", "none", symbreak=True, dir=0, unk=2)
     return out
 
 
